@@ -12,12 +12,69 @@ import (
 	"runtime/debug"
 	"runtime/pprof"
 	"sort"
+	"strconv"
+	"strings"
 	"time"
 
 	hook "github.com/pion/rtcp/zz_simhook"
 )
 
 var out = json.NewEncoder(os.Stdout)
+
+// hotKinds / hotUnits: result of the calibration pass of this build (bit k set: packets of kind k, resp. unit
+// operation k, reach a statement that touches shared state).  Zero on a tree without such statements.
+var hotKinds, hotUnits uint64
+
+var calHits int
+
+// calibrate runs every operation once or twice on a few values of every kind, sequentially, and prints which kinds
+// reach "hot" statements.  It runs in a process of its own: nothing of what it warms up is seen by any run.
+func calibrate() {
+	hook.Hook = func(site int) {
+		if site >= 0 && site < len(siteHot) && siteHot[site] {
+			calHits++
+		}
+	}
+	var kinds, units uint64
+	try := func(f func()) bool {
+		calHits = 0
+		func() {
+			defer func() { _ = recover() }()
+			f()
+		}()
+		return calHits > 0
+	}
+	for k := 0; k < numKinds; k++ {
+		for i := uint64(1); i <= 8; i++ {
+			if try(func() {
+				p := genPacket(k, i*0x9E3779B97F4A7C15)
+				b, _ := p.Marshal()
+				_ = p.MarshalSize()
+				_ = p.DestinationSSRC()
+				if st, ok := p.(fmt.Stringer); ok {
+					_ = st.String()
+				}
+				if len(b) > 0 {
+					_ = newOfKind(k).Unmarshal(b)
+					_, _ = vopUnmarshalAll(b)
+				}
+			}) {
+				kinds |= 1 << uint(k)
+			}
+		}
+	}
+	for u := 0; u < numUnits; u++ {
+		for i := uint64(1); i <= 4; i++ {
+			if try(func() {
+				var res opResult
+				unitOp(&res, u, i*0x9E3779B97F4A7C15)
+			}) {
+				units |= 1 << uint(u)
+			}
+		}
+	}
+	fmt.Printf("%x:%x\n", kinds, units)
+}
 
 func emit(v interface{}) {
 	if err := out.Encode(v); err != nil {
@@ -42,10 +99,16 @@ func installHook() {
 	n := len(hook.Sites)
 	siteFuncFirst = make([]bool, n)
 	siteGlobal = make([]bool, n)
+	siteHot = make([]bool, n)
+	treeHot = 0
 	siteHit = make([]uint32, n)
 	for i := range hook.Sites {
 		siteFuncFirst[i] = hook.Sites[i].FuncFirst
 		siteGlobal[i] = hook.Sites[i].Global
+		siteHot[i] = hook.Sites[i].Hot
+		if siteHot[i] {
+			treeHot++
+		}
 	}
 	numLabels = int(numOps) * (numKinds + 1)
 	pairSeen = make([]uint64, (numLabels*numLabels+63)/64)
@@ -274,7 +337,15 @@ func main() {
 	forceOp := flag.Bool("forceop", false, "operation-granular scheduling for every run (retry of a stuck batch)")
 	wd := flag.Int("watchdog", 60, "seconds after which a single run is declared stuck (exit 5)")
 	cpuprof := flag.String("cpuprofile", "", "write a CPU profile (development aid)")
+	calib := flag.Bool("calibrate", false, "print which packet kinds and unit operations reach statements that touch shared state")
+	hot := flag.String("hot", "", "result of the calibration pass (kinds:units, hexadecimal masks)")
 	flag.Parse()
+	if *hot != "" {
+		if i := strings.IndexByte(*hot, ':'); i > 0 {
+			hotKinds, _ = strconv.ParseUint((*hot)[:i], 16, 64)
+			hotUnits, _ = strconv.ParseUint((*hot)[i+1:], 16, 64)
+		}
+	}
 	watchdogLimit = time.Duration(*wd) * time.Second
 	if *cpuprof != "" {
 		if f, err := os.Create(*cpuprof); err == nil {
@@ -289,6 +360,10 @@ func main() {
 	}
 	initTypeMasks()
 	installHook()
+	if *calib {
+		calibrate()
+		return
+	}
 	racePath := os.Getenv("SIM_RACE_LOG")
 	_ = runtime.NumCPU
 
